@@ -89,7 +89,7 @@ def parseWDay (wday : List Char) : Py.R WDay :=
     let w := splt.headD []
     let inner := (splt.getD 1 []).dropLast            -- splt[1][:-1]
     match pyInt inner, lookup weekdayMap w with
-    | some n, some k => .ok (k, some n)
+    | some n, some k => if n == 0 then .error .ValueError else .ok (k, some n)    -- rrule.weekday rejects n == 0
     | none, _ => .error .ValueError
     | _, none => .error .KeyError
   else if wday.isEmpty then .error .ValueError
@@ -104,7 +104,7 @@ def parseWDay (wday : List Char) : Py.R WDay :=
     | some k =>
       if nTxt.isEmpty then .ok (k, none)
       else match pyInt nTxt with
-        | some n => .ok (k, some n)
+        | some n => if n == 0 then .error .ValueError else .ok (k, some n)
         | none => .error .ValueError
 
 /-- dispatch of `getattr(self, "_handle_" + name)`; `.error .AttributeError` = unknown name -/
